@@ -299,7 +299,7 @@ var hostile = []byte{0, 1, 2, 3, 4, 7, 8, 15, 16, 17, 31, 32, 63, 64, 0x7F, 0x80
 
 func mutate(t *rapid.T, it *Item, data []byte) ([]byte, string) {
 	segs, hdr := segmentsOf(it)
-	kinds := []string{"trunc", "setbyte", "setbyte", "field", "field", "seglen", "seglen", "segop", "splice", "tail", "insert", "word"}
+	kinds := []string{"trunc", "setbyte", "setbyte", "field", "field", "seglen", "seglen", "segop", "splice", "tail", "insert", "word", "pair", "pair"}
 	if it.Family == "j2k" && len(segs) > 0 {
 		kinds = append(kinds, "tilegrid", "tilegrid", "tilepart", "tilepart")
 	}
@@ -336,6 +336,42 @@ func mutate(t *rapid.T, it *Item, data []byte) ([]byte, string) {
 		v := rapid.SampledFrom(append(append([]byte{}, hostile...), cur+1, cur-1, cur^0x10, cur^0x01, cur<<4|cur>>4)).Draw(t, "val")
 		out[i] = v
 		return out, fmt.Sprintf("field:%d=%d", i, v)
+	case "pair":
+		// Two header bytes that carry the same value (a component id in SOF and SOS, input and
+		// output component lists of an MCC, table ids in DQT/DHT and their users, tile indices)
+		// are changed to the same new value: the header stays self-consistent and the changed
+		// value reaches the code behind the cross-check.
+		s := segs[rapid.IntRange(0, len(segs)-1).Draw(t, "seg")]
+		i := s.off + 4 + rapid.IntRange(0, max(0, min(s.size-5, 60))).Draw(t, "idx")
+		if i >= len(out) {
+			i = len(out) - 1
+		}
+		cur := out[i]
+		var same []int
+		for j := 0; j < min(len(out), max(hdr, 1)); j++ {
+			if j != i && out[j] == cur {
+				same = append(same, j)
+			}
+		}
+		v := rapid.SampledFrom(append(append([]byte{}, hostile...), cur+1, cur-1, cur+2, cur^0x10, cur<<4|cur>>4)).Draw(t, "val")
+		out[i] = v
+		desc := fmt.Sprintf("pair:%d=%d", i, v)
+		if len(same) > 0 {
+			// prefer a partner close by (same or a neighbouring segment)
+			near := same[:0:0]
+			for _, j := range same {
+				if j > i-64 && j < i+64 {
+					near = append(near, j)
+				}
+			}
+			if len(near) > 0 && rapid.IntRange(0, 3).Draw(t, "near") > 0 {
+				same = near
+			}
+			j := rapid.SampledFrom(same).Draw(t, "partner")
+			out[j] = v
+			desc += fmt.Sprintf(",%d", j)
+		}
+		return out, desc
 	case "seglen":
 		s := segs[rapid.IntRange(0, len(segs)-1).Draw(t, "seg")]
 		l := s.size - 2
@@ -949,4 +985,86 @@ func TestHeaders(t *testing.T) {
 		return c
 	})
 	core.RunSharded(t, ID, 480, 20000, g, Check)
+}
+
+// TestPairBytes enumerates cooperating two-byte corruptions of every pool stream's header: a
+// header byte and another byte of the header that carries the same value (its nearest partners)
+// are set to the same new value. Identifiers that a header repeats - component ids in SOF and
+// SOS, input and output component lists of an MCC, table ids and their users, tile indices -
+// stay consistent that way, so the changed value passes the cross-checks and reaches the code
+// behind them. (Third-party fixtures are left out: the single-byte sweep covers them in the
+// thorough tier.)
+func TestPairBytes(t *testing.T) {
+	shard, shards := core.EnvInt("VERIF_SHARD", 0), max(1, core.EnvInt("VERIF_SHARDS", 1))
+	n := 0
+	names := make([]string, 0, len(pool))
+	for _, it := range pool {
+		names = append(names, it.Name)
+	}
+	sort.Strings(names)
+	partners := 2
+	if core.Thorough() {
+		partners = 8
+	}
+	for _, name := range names {
+		it := byName[name]
+		if len(name) > 7 && name[:7] == "fixture" {
+			continue
+		}
+		_, hdr := segmentsOf(it)
+		hdr = min(hdr, 300, len(it.Data))
+		e := it.Entries[0]
+		for off := 0; off < hdr; off++ {
+			cur := it.Data[off]
+			if cur == 0xFF {
+				continue // marker prefixes
+			}
+			// nearest partners with the same value
+			var ps []int
+			for d := 1; d < hdr && len(ps) < partners; d++ {
+				for _, j := range []int{off + d, off - d} {
+					if j >= 0 && j < hdr && it.Data[j] == cur && len(ps) < partners {
+						ps = append(ps, j)
+					}
+				}
+			}
+			vals := []byte{cur + 1, cur + 2, 0x7F}
+			if core.Thorough() {
+				vals = []byte{cur + 1, cur + 2, cur - 1, 0x7F, 0x80, 0xFE, cur ^ 0x10, cur<<4 | cur>>4}
+			}
+			for _, j := range ps {
+				if j < off {
+					continue // each unordered pair once
+				}
+				for _, v := range vals {
+					if v == cur {
+						continue
+					}
+					n++
+					if n%shards != shard {
+						continue
+					}
+					in := append([]byte(nil), it.Data...)
+					in[off], in[j] = v, v
+					if s, found := preparse.Declared(in); found && s > 1<<20 {
+						// two zero bytes of a size field: a huge declared image costs seconds per
+						// decode and is what the other generators cover; this sweep is about identifiers
+						core.Count("pairbytes_skipped_large_declared", 1)
+						continue
+					}
+					inf := it.Info
+					c := &Case{Entry: e, Parent: it.Name, Muts: []string{fmt.Sprintf("pair:%d,%d=%d", off, j, v)}, Input: in, Info: &inf}
+					if len(e) < 6 || e[:6] != "codec:" {
+						c.Info = nil
+					}
+					o := Check(c)
+					if o.Fail != nil {
+						core.Eval(t, ID, "exhaustive", c, Check)
+					}
+					core.RecordLight(uint64(n)<<8|3, o.NonTrivial, "enum-pairbytes")
+				}
+			}
+		}
+	}
+	core.ExhaustiveDone("two header bytes of equal value (a byte and its nearest equal partners within the first 300 bytes) set to the same new value, for every pool stream", int64(n))
 }
